@@ -461,6 +461,20 @@ pub(crate) fn c12_one(c: &mut Ctx, cfg: &GenCfg, e: &str, orig: &Envelope, all: 
                         let v3 = c.obs(&format!("confirm {} {} {}", e, ts2, p));
                         c.check("absent-target-rejected", v3 == "false", "absent-target-rejected", || "proof accepted for a target that does not occur in it".into());
                     }
+                    // forged proofs: an obscured element that DECLARES the root's digest but holds the absent target (only a digest
+                    // check on its content could tell; a verifier must not look inside at all)
+                    if !all.contains(&c.env(&absent).unwrap().digest()) && paths.len() <= 1 {
+                        let f1 = c.assign(&format!("miscompress {} {}", e, absent));
+                        let nn = hex::encode(c.rng.bytes(12));
+                        let f2 = c.assign(&format!("misdeclare {} {} {} {}", e, absent, KEY1, nn));
+                        for f in [f1, f2] {
+                            if c.env(&f).map(|x| x.digest() == orig.digest()).unwrap_or(false) {
+                                let v5 = c.obs(&format!("confirm {} {} {}", e, absent, f));
+                                c.check("forged-proof-rejected", v5 == "false", "forged-proof-accepted", || "an obscured element declaring the root digest and holding an absent target was accepted as a proof".into());
+                                c.count("branch:forged-proof");
+                            }
+                        }
+                    }
                     // minimal disclosure
                     let m = check_minimal(&orig, &pr, &tset);
                     let key = "proof-minimal";
@@ -654,9 +668,36 @@ pub(crate) fn c14_pool(c: &mut Ctx, pool: &[String]) {
         }
 }
 
+/// deep structures: an obscured position far below the root still tells two envelopes apart (no depth at which the comparison
+/// stops looking); chains of wrappers and hash-chained records, around powers of two and beyond
+fn c14_deep(c: &mut Ctx, b: &Budget) {
+    let depths: Vec<usize> = if b.thorough { vec![31, 63, 64, 65, 127, 128, 129, 130, 255, 256, 257, 300, 513, 1025] } else { vec![63, 65, 127, 128, 129, 130, 257, 300] };
+    for (k, d) in depths.into_iter().enumerate() {
+        c.begin("deep");
+        let bottom = c.assign("leaf 66626f74746f6d");
+        let second = c.assign("leaf 667365636f6e64");
+        let inner = { let a = c.assign(&format!("assertion {} {}", second, bottom)); let s = c.assign("leaf 01"); c.assign(&format!("add {} {}", s, a)) };
+        let nn = hex::encode(c.rng.bytes(12));
+        let variants: Vec<String> = vec![inner.clone(), c.assign(&format!("elide_set {} rem elide {}", inner, bottom)), c.assign(&format!("elide_set {} rem compress {}", inner, bottom)),
+            c.assign(&format!("elide_set {} rem encrypt:{} {}", inner, KEY1, bottom)), c.assign(&format!("elide_set {} rem elide {}", inner, second)), { let _ = nn; c.assign(&format!("elide {}", inner)) }];
+        let mut pool = vec![];
+        for v in variants {
+            let mut cur = v;
+            for lvl in 0..d {
+                cur = if k % 2 == 0 || lvl % 2 == 0 { c.assign(&format!("wrap {}", cur)) } else { let p = c.assign("leaf 6470726576"); let a = c.assign(&format!("assertion {} {}", p, cur)); let s = c.assign(&format!("leaf {}", hex::encode(dcbor::CBOR::from(lvl as u64).to_cbor_data()))); c.assign(&format!("add {} {}", s, a)) };
+            }
+            pool.push(cur);
+        }
+        c.count(&format!("deep:{}", d));
+        c14_pool(c, &pool);
+        c.end();
+    }
+}
+
 /// C14 - equivalence and identity
 pub fn c14(c: &mut Ctx, b: &Budget) {
     let cfg = GenCfg::default();
+    c14_deep(c, b);
     for sc in 0..b.scenarios {
         c.begin("relations");
         let e = gen_env(c, &cfg, 3);
@@ -752,6 +793,22 @@ pub fn c15(c: &mut Ctx, b: &Budget) {
         c.begin("queries");
         let mut e = gen_env(c, &cfg, 3);
         if i % 3 == 0 { let n = gen_obscure(c, &e); if c.is_ok(&n) { e = n; } }
+        if i % 5 == 2 {
+            // one value at two positions, obscured where the walk comes first and in full where it comes later (and the other way
+            // round): what lies beneath the full copy belongs to the structure whatever was seen before
+            let x = { let s = gen_leaf(c, &cfg); let a = gen_assertion(c, &cfg, 1); let n = c.assign(&format!("add {} {}", s, a)); let a2 = gen_assertion(c, &cfg, 0); let n2 = c.assign(&format!("add {} {}", n, a2)); if c.is_ok(&n2) { n2 } else { n } };
+            let nn = hex::encode(c.rng.bytes(12));
+            let hidden = match c.rng.below(4) { 0 => c.assign(&format!("elide {}", x)), 1 => c.assign(&format!("compress {}", x)), 2 => c.assign(&format!("encrypt {} {} {}", x, KEY1, nn)),
+                _ => { let t = c.assign(&format!("at {} a0", x)); c.assign(&format!("elide_set {} rem elide {}", x, t)) } };
+            let p = gen_leaf(c, &cfg);
+            let (first, later) = if c.rng.chance(2, 3) { (hidden.clone(), x.clone()) } else { (x.clone(), hidden.clone()) };
+            let host = match c.rng.below(3) {
+                0 => { let a = c.assign(&format!("assertion {} {}", p, later)); c.assign(&format!("add {} {}", first, a)) }
+                1 => { let a = c.assign(&format!("assertion {} {}", first, later)); let s = gen_leaf(c, &cfg); c.assign(&format!("add {} {}", s, a)) }
+                _ => { let w1 = c.assign(&format!("wrap {}", first)); let a = c.assign(&format!("assertion {} {}", p, later)); c.assign(&format!("add {} {}", w1, a)) }
+            };
+            if c.is_ok(&host) { e = host; c.count("branch:one-digest-obscured-and-full"); }
+        }
         if i % 4 == 1 {
             // several distinct assertions with one predicate and one object: bare, decorated (twice, differently), salted
             let p = gen_leaf(c, &cfg); let o = gen_leaf(c, &cfg);
